@@ -1,3 +1,4 @@
 import TinsModel.Props.C03
 #print axioms Tins.Props.C03.be_field_roundtrip
 #print axioms Tins.Props.C03.le_field_roundtrip
+#print axioms Tins.Props.C03.l2_whole_packet_c03
